@@ -8,7 +8,7 @@
    All statements quantify over ALL iterator states / element lists / parameters / callbacks
    (callbacks are arbitrary total functions value -> result). *)
 From Coq Require Import List ZArith NArith Bool.
-From KV.iter Require Import IterModel IterSpec IterFuel IterSem IterRev IterLazy IterMore IterErr.
+From KV.iter Require Import IterModel IterSpec IterFuel IterSem IterRev IterLazy IterMore IterErr IterCopy.
 Import ListNotations.
 Open Scope N_scope.
 
@@ -246,6 +246,23 @@ Theorem construction_pulls_nothing : forall a it it', apply_stage a it = Some it
 Proof. exact apply_stage_rem. Qed.
 Print Assumptions construction_pulls_nothing.
 
+(* --- copies.  `copy` (IterModel.v) mirrors each make_copy field by field.  States of this model are values, so
+       the theorem is: the field-by-field copy IS the state, at any point of the iterator's life; hence the copy
+       steps like the original, denotes the same remainder, and pulling one cannot change the other.  (What ties
+       this to the Rust code, where handles are shared pointers, is the correspondence check: every adaptor is
+       advanced k = 0 .. 2 len + 3 pulls, copied, copied again, and all three are consumed interleaved.)
+       Not covered by the model: Peekable's copy, which in the Rust code shares the inner iterator (finding C13c). --- *)
+Theorem copy_is_the_state : forall it, copy it = it.
+Proof. exact copy_id. Qed.
+Print Assumptions copy_is_the_state.
+
+Theorem copy_yields_remainder : forall it0 t it, Steps it0 t it ->
+  (forall n d, step n d (copy it) = step n d it) /\
+  (forall l, Sem it l -> Sem (copy it) l) /\
+  (forall l t' c', Sem it l -> Steps (copy it) t' c' -> Sem it l /\ exists o', Steps it t' o' /\ o' = c').
+Proof. exact IterCopy.copy_yields_remainder. Qed.
+Print Assumptions copy_yields_remainder.
+
 (* --- non-vacuity, on the executable instance --- *)
 From KV.iter Require Import IterRun.
 
@@ -275,6 +292,16 @@ Example error_example :
   run_case (SFail 1 [VInt 3; VInt 1; VInt 4] 1 false) [ATake 1] (CFor true) =
     (0%Z, [enc_event (EvPull 1 (VInt 3)); enc_event EvNone], enc_cres (CVal (VInt 1))).
 Proof. vm_compute. auto. Qed.
+
+Example copy_example :
+  (* (3,1,4).cycle(): 4 pulls, copy, then original and copy alternately: both continue with 1, 4 *)
+  run_case (mk_list [VInt 3; VInt 1; VInt 4]) [ACycle]
+           (CScript [OpNext 0; OpNext 0; OpNext 0; OpNext 0; OpCopy 0 1; OpNext 0; OpNext 1; OpNext 0; OpNext 1]) =
+  (0%Z, map enc_event
+     [EvOut (ROk (VTup [VInt 0; VInt 3])); EvOut (ROk (VTup [VInt 0; VInt 1])); EvOut (ROk (VTup [VInt 0; VInt 4]));
+      EvOut (ROk (VTup [VInt 0; VInt 3])); EvOut (ROk (VTup [VInt 0; VInt 1])); EvOut (ROk (VTup [VInt 1; VInt 1]));
+      EvOut (ROk (VTup [VInt 0; VInt 4])); EvOut (ROk (VTup [VInt 1; VInt 4]))], enc_cres (CVal VNull)).
+Proof. vm_compute. reflexivity. Qed.
 
 Example denote_example :
   denote [AEach f_dbl; AKeep p_gt1; ATake 2] (ok_all [VInt 1; VInt 2; VInt 3; VInt 4]) = Some (ok_all [VInt 2; VInt 4]).
